@@ -112,6 +112,7 @@ Definition step_op (st : rstate) (op : list tok) : rstate * list tok :=
       let '(s', c', evs) := force_answer T s c in
       (mkr s' c', st_toks s' c' ++ [TS "abort"])
     else if name =? "blackbox" then (st, [])
+    else if name =? "blackboxh2" then (st, [])
     else if name =? "auto" then
       (* auto <h2> <redirect status or 0> <input>... : events of the life cycle *)
       match args with
